@@ -109,7 +109,7 @@ def execute (re : RegexOracle) (filter : Option Evaluator) (data : Any) : ExecOu
   | none => .ok data
   | some ev =>
     match valueOf data with
-    | none => .panic                          -- `rvalue.Type()` on the zero Value
+    | none => .err                            -- `if !rvalue.IsValid()`
     | some (.array elem xs) =>
       match execSliceLoop (ev.evaluate re) xs [] with
       | .ok kept => .ok (some (.slice "" elem false kept))
